@@ -196,17 +196,22 @@ func runCheck(cfg *RunConfig) int {
 	var violationLines []string
 	var knownLines []string
 	for _, hn := range cfg.Harnesses {
+		if totalViol > 0 {
+			fmt.Printf("harness %s: skipped (a violation is already confirmed; the check fails)\n", hn)
+			continue
+		}
 		fn := prog.props.Func(hn)
 		if fn == nil {
 			fmt.Fprintf(os.Stderr, "harness %s not found in verif/harness/props\n", hn)
 			return 2
 		}
 		h := &HarnessRun{prog: prog, name: hn, property: cfg.Property, fn: fn, tier: cfg.Tier,
-			feasTimeoutMs: 3000, assertTimeoutMs: 30000, maxSteps: 3000000, maxPaths: cfg.MaxPaths,
+			feasTimeoutMs: 3000, assertTimeoutMs: 15000, maxSteps: 3000000, maxPaths: cfg.MaxPaths,
 			fixedPicks: map[string]int{}, knownActive: knownActive, params: mergeParams(cfg.Params, cfg.HarnessParams[hn]),
 			aborted: map[string]int{}, abortMsgs: map[string]int{}, labels: map[string]*labelStat{},
 			covers: map[string]*Scenario{}, coverHits: map[string]int{}, knownHits: map[string]*Scenario{},
-			entered: map[string]int{}, intrinsics: map[string]int{}, mapRanges: map[string]int{}, shapes: map[string]int{}}
+			entered: map[string]int{}, intrinsics: map[string]int{}, mapRanges: map[string]int{}, shapes: map[string]int{},
+			fuzzBudget: 30000, seed: seed, failFastAfter: 8}
 		if cfg.Tier == "thorough" {
 			h.assertTimeoutMs = 120000
 			h.feasTimeoutMs = 5000
@@ -239,6 +244,9 @@ func runCheck(cfg *RunConfig) int {
 		}
 		for m, n := range h.abortMsgs {
 			fmt.Printf("    %dx %s\n", n, m)
+		}
+		if h.failFast {
+			fmt.Printf("  FAIL-FAST: exploration stopped after %d counterexamples\n", h.violCount)
 		}
 		if h.pathLimitHit {
 			fmt.Printf("  PATH-LIMIT hit (%d): exploration incomplete\n", h.maxPaths)
@@ -385,6 +393,21 @@ func runCheck(cfg *RunConfig) int {
 					fmt.Printf("  nondeterminism source covered: %s %s\n", s.Kind, s.Pos)
 				} else {
 					fmt.Printf("  UNCOVERED nondeterminism source: %s %s in %s (no harness iterated it with >= 2 entries in permute mode)\n", s.Kind, s.Pos, s.Func)
+					if exit == 0 {
+						exit = 2
+					}
+				}
+			case strings.Contains(s.Kind, "maps.Keys"):
+				ok := false
+				for site, n := range covered {
+					if strings.Contains(site, "maps.Keys") && n >= 2 {
+						ok = true
+					}
+				}
+				if ok {
+					fmt.Printf("  nondeterminism source covered: %s %s (keys of a map, iterated in permute mode)\n", "maps.Keys", s.Pos)
+				} else {
+					fmt.Printf("  UNCOVERED nondeterminism source: %s %s in %s\n", s.Kind, s.Pos, s.Func)
 					if exit == 0 {
 						exit = 2
 					}
